@@ -32,6 +32,7 @@ def run(ctx: Ctx):
 
     slice_index_space(ctx, "baseline-source.index-space")
     slice_argument(ctx)
+    valid_rows_table(ctx)
     formula(ctx)
     independence(ctx)
     from .common import no_shared_writes
@@ -188,6 +189,46 @@ def factory(ctx: Ctx):
     labels = data_labels(reads)
     ctx.ob("baseline-provenance", f"{LY.MCM}::CubeMeasures.unconditional_cube_counts.baseline", sorted(labels), "['W*']", labels == {"W*"}, "only counts-with-missings feed the baseline")
     ctx.ob("baseline-independence", f"{LY.MCM}::CubeMeasures.unconditional_cube_counts.baseline", sorted(transform_reads(reads)), "[]", not transform_reads(reads), "hiding / pruning / ordering plays no part in who is eligible")
+
+
+def valid_rows_table(ctx: Ctx):
+    """`_valid_row_idxs` selects, from the with-missings rows, exactly the valid rows of the rows dimension - wherever the
+    missing ones sit.  The selector is evaluated (DECTAB) on models of the valid offsets: missing last, missing FIRST,
+    interleaved, a single valid row, and compared with the offsets themselves."""
+    from ..dectab import DTop, IndexInterp, Raises, selected
+
+    ci = ctx.repo.cls(LY.MCM, "_BaseUnconditionalCubeCounts")
+    m = ctx.repo.lookup(ci, "_valid_row_idxs")
+    where = f"{LY.MCM}::_BaseUnconditionalCubeCounts._valid_row_idxs"
+    if m is None:
+        ctx.undecided("baseline-valid-rows.table", where, "member not found", "selector of the valid rows")
+        return
+    body = SUMMARIZER.summarize(m.node)
+    models = [(0, 1, 2), (1, 2, 3), (2, 3, 4, 5), (0, 2, 4), (0, 1, 3), (3,), (0,), (1, 4)]
+    bad, n = [], 0
+    try:
+        for idxs in models:
+            def atoms(x, idxs=idxs):
+                t = u(x)
+                if t in ("self._dimensions[-2].valid_elements.element_idxs", "self._dimensions[0].valid_elements.element_idxs", "self._rows_dimension.valid_elements.element_idxs"):
+                    return idxs
+                raise KeyError
+
+            n += 1
+            try:
+                got = selected(IndexInterp(atoms).ev(body), (6,))[0]
+            except Raises as r:
+                bad.append(f"valid offsets {idxs}: raises {r.etype}")
+                continue
+            if tuple(got) != tuple(idxs):
+                bad.append(f"valid offsets {idxs}: rows {tuple(got)} selected")
+    except DTop as t:
+        ctx.undecided("baseline-valid-rows.table", where, "DECTAB: " + str(t), "selector evaluated on models of the valid offsets")
+        return
+    ctx.count("valid-row selector models", n)
+    ctx.ob("baseline-valid-rows.table", where, bad[:4] or f"{n} layouts of missing rows: the valid offsets themselves are selected", "rows at the valid offsets, in order", not bad,
+           "a missing category listed BEFORE the valid ones shifts every baseline onto another row's share")
+    ctx.require_min("valid-row selector models", 8)
 
 
 def slice_argument(ctx: Ctx):
